@@ -338,6 +338,18 @@ func c16(p *P) {
 			r.Check(ok, "C16.R4", name+": PowerTable := store table for the very instance NextInstance is set to, on every path", p.c.InstrPos(ni.Store), "GetPowerTable(NextInstance)", why+" — later certificates would be validated against a stale power table (a forged certificate signed by a rotated-out key is stored; honest peers are branded illegal)")
 		}
 	}
+	if np := p.fn("C16.R4", "certexchange/polling.NewPoller"); np != nil {
+		for _, fs := range fieldStores(np, false, "Poller", "NextInstance") {
+			alts := splitAlternatives(canon(fs.Store.Val))
+			ok := len(alts) == 2
+			for _, a := range alts {
+				if a != "0" && a != "(certstore.Store.Latest($2).GPBFTInstance + 1)" {
+					ok = false
+				}
+			}
+			r.Check(ok, "C16.R4", "polling.NewPoller: NextInstance = store latest + 1 (0 for an empty store)", p.c.InstrPos(fs.Store), strings.Join(alts, " | "), "NextInstance starts at "+strings.Join(alts, " | ")+" — after a restart the first catch-up reports progress the store never made")
+		}
+	}
 	if cu := p.fn("C16.R4", "certexchange/polling.Poller.CatchUp"); cu != nil {
 		for _, fs := range fieldStores(cu, false, "Poller", "NextInstance") {
 			r.Check(strings.Contains(canon(fs.Store.Val), "certstore.Store.Latest(") && strings.Contains(canon(fs.Store.Val), "+ 1"), "C16.R4", "polling.Poller.CatchUp: NextInstance = store latest + 1", p.c.InstrPos(fs.Store), canon(fs.Store.Val), "NextInstance set to "+canon(fs.Store.Val))
